@@ -187,6 +187,12 @@ class FEM(om.ImplicitComponent):
         vec_size = self.options["vec_size"]
         ny = self.ny
 
+        # Assemble and factor K at the point we are linearising about. k_data and _lup are otherwise
+        # whatever the last apply_nonlinear/solve_nonlinear call left behind, which is a perturbed
+        # point after a finite-difference check.
+        K = self.assemble_CSC_K(inputs)
+        self._lup = splu(K)
+
         idx = np.tile(np.tile(np.arange(12), 12), ny - 1) + np.repeat(6 * np.arange(ny - 1), 144)
         J["disp_aug", "local_stiff_transformed"] = np.tile(x[idx], vec_size)
 
